@@ -63,9 +63,12 @@ pub fn do_call(g: &mut dyn crate::gens::DynGen, call: Call) -> Result<Out, SutFa
         Call::U32 => Out::U32(g.next_u32()),
         Call::U64 => Out::U64(g.next_u64()),
         Call::Fill(n) => {
-            let mut b = vec![0xA5u8; n];
-            g.fill_bytes(&mut b);
-            Out::Bytes(b)
+            // the destination starts at a varying offset from an aligned allocation: the result
+            // must not depend on where the caller's slice sits in memory
+            let off = (n ^ (n >> 3) ^ (n >> 7)) & 15;
+            let mut buf = vec![0xA5u8; n + 16];
+            g.fill_bytes(&mut buf[off..off + n]);
+            Out::Bytes(buf[off..off + n].to_vec())
         }
     })
 }
